@@ -303,12 +303,12 @@ Proof.
   | |- context [beq (bs ?a) (bs ?b)] =>
       let v := eval vm_compute in (beq (bs a) (bs b)) in change (beq (bs a) (bs b)) with v
   end. cbv iota.
-  match goal with |- context [mem_name (bs "EVAL") write_commands] => destruct (mem_name (bs "EVAL") write_commands) end.
+  match goal with |- context [logs_before (bs "EVAL") ?p] => destruct (logs_before (bs "EVAL") p) end.
   all: unfold log_aof_in; try destruct (same_db _ _).
   all: rewrite exec_db_eval; rewrite <- Hp.
   all: unfold get_db in *; cbn [s_dbs log_aof] in *.
   all: destruct (h_eval _ _ _) as [rr dd'] eqn:Eh.
-  all: unfold get_db in *; cbn [fst snd s_conns s_password s_dbs set_trk set_db log_aof get_db] in *.
+  all: unfold get_db in *; cbn [fst snd s_conns s_password s_dbs set_trk set_db log_aof log_after get_db] in *.
   all: repeat split; try reflexivity.
   all: try (intros j Hj; now apply nth_list_set_other, not_eq_sym).
   all: intros Hl; now apply nth_list_set_same.
